@@ -13,6 +13,7 @@ mod c15;
 mod c16;
 mod c17;
 mod c18;
+mod c19;
 mod c20;
 mod common;
 mod refmodel;
@@ -117,6 +118,7 @@ fn main() {
         "C15" => c15::run(&ctx),
         "C16" => c16::run(&ctx),
         "C18" => c18::run(&ctx),
+        "C19" => c19::run(&ctx),
         _ => usage(),
     };
     let code = finish(&ctx, &rep, t0.elapsed().as_secs_f64());
